@@ -136,6 +136,129 @@ SPECS.update({
     },
 })
 
+
+def ensure_plugins():
+    """protoc-gen-go / protoc-gen-gogo are built by setup.sh; build them here if someone skipped it."""
+    b = os.path.join(driver.VERIF, "bin")
+    if not (os.path.exists(os.path.join(b, "protoc-gen-go")) and os.path.exists(os.path.join(b, "protoc-gen-gogo"))):
+        driver.run(["sh", os.path.join(driver.VERIF, "setup.sh")], cwd=driver.VERIF)
+    return b
+
+
+def build_corpus(workdir, tier, seed, mode, flavor):
+    """Builds protoc-gen-fastmarshal from /repo's working tree, generates and compiles the corpus, builds wl-gen.
+    Returns (path of wl-gen or None, gen report dict)."""
+    b = ensure_plugins()
+    fm = os.path.join(workdir, "protoc-gen-fastmarshal")
+    driver.go_build("./cmd/protoc-gen-fastmarshal", fm, "none", driver.REPO)
+    cg = os.path.join(workdir, "corpusgen")
+    driver.go_build("./cmd/corpusgen", cg, "none", driver.HARNESS)
+    genmod = os.path.join(workdir, "genmod")
+    import time as _t
+    t0 = _t.time()
+    p = driver.run([cg, "-out", genmod, "-fm", fm, "-gogo", os.path.join(b, "protoc-gen-gogo"), "-gogen", os.path.join(b, "protoc-gen-go"),
+                    "-mode", mode, "-tier", tier, "-seed", str(seed), "-harness", driver.HARNESS, "-repo", driver.REPO], cwd=workdir, check=False)
+    if p.returncode != 0:
+        raise driver.Inconclusive("corpus generation failed: " + (p.stdout or "")[-1500:])
+    driver.log("  corpus: %s (%.1fs)" % ((p.stdout or "").strip().splitlines()[-1], _t.time() - t0))
+    report = json.load(open(os.path.join(genmod, "gen-report.json")))
+    wl = None
+    if flavor is not None:
+        wl = os.path.join(workdir, "wl-gen")
+        driver.go_build(".", wl, flavor, genmod)
+    return wl, report
+
+
+def gen_run(prop, spec, workdir, tier, seed, t0):
+    """Checks whose workload links the generated corpus."""
+    try:
+        wl, report = build_corpus(workdir, tier, seed, spec.get("corpus_mode", "behave"), spec.get("flavor", "plain"))
+    except driver.Inconclusive as e:
+        print("INCONCLUSIVE property=%s reason=%s" % (prop, str(e).replace("\n", " | ")[:1500]))
+        return 2
+    results, crashes, inconc = driver.run_shards(spec, workdir, wl, prop, tier, seed)
+    merged = driver.merge(results)
+    for c in crashes:
+        merged["violations"].setdefault(c["sig"], c)
+    merged["inconclusive"] += inconc
+    extra_cov = {"corpus_packages_generated": len(report["packages"]), "corpus_packages_linked": sum(1 for p in report["packages"] if p["linked"]),
+                 "corpus_units": len({p["unit"] for p in report["packages"]})}
+    if spec.get("flavor") == "race":
+        reps = driver.race_reports(workdir)
+        extra_cov["race_reports"] = len(reps)
+        for key, text in reps.items():
+            merged["violations"]["%s:race:%s" % (prop, key)] = {
+                "sig": "%s:race:%s" % (prop, key), "what": "data race reported by the Go race detector: " + key,
+                "count": 1, "witness": {"report": text}}
+    return driver.finish(prop, spec, tier, seed, merged, t0, extra_cov=extra_cov)
+
+
+TRUST_GEN = [
+    "Go toolchain 1.23.5; protoc-gen-go 1.36.4 / protoc-gen-gogo 1.3.2 from the module cache generate the message types",
+    "oracle = google.golang.org/protobuf dynamicpb/protodesc 1.36.4 working from descriptors only (never calls generated methods)",
+    "the harness plays protoc's role (descriptors built programmatically, validated by protodesc.NewFile); the bridge (reflection copy generated<->dynamic) is self-checked on every type and a bridge fault makes the run inconclusive",
+]
+
+SPECS.update({
+    "C04": {
+        "binary": "wl-gen", "flavor": "plain", "shards": 16, "run": gen_run,
+        "timeout_quick": 900, "timeout_thorough": 3400, "ulimit_kb": 8 << 20,
+        "floor": 1000,
+        "rule": ("one case = one message value of one generated type (unit x flavour {gogo, gv1, gv2} x generator options) built through reflection on fresh structs; "
+                 "Size(), Marshal() and MarshalTo(buffer of exactly Size() bytes, canary-framed, filled 0xAA then 0x55) must agree: equal lengths, every byte written, no overrun, "
+                 "no truncated copy (encoder hook), no panic; non-trivial when >=1 field is populated; distinct by (package, message, field + boundary class | random field-number set)"),
+        "explanation": "values: the empty message, every field alone at each boundary value / container shape (lists 1,2,127,128; maps 0,1,3; empty and full nested messages in fields, lists, maps, oneofs), then seeded random combinations; required fields always set; violations are shrunk field by field and signed by (flavour, failure kind, populated field shapes)",
+        "assumptions": TRUST_GEN,
+    },
+    "C05": {
+        "binary": "wl-gen", "flavor": "plain", "shards": 16, "run": gen_run,
+        "timeout_quick": 900, "timeout_thorough": 3400, "ulimit_kb": 8 << 20,
+        "floor": 1000,
+        "rule": ("one case = one message value of one generated type; the bytes of the generated Marshal() are parsed by dynamicpb from the unit's descriptor and compared with the original value "
+                 "(deterministic re-encoding must be byte-identical: presence, NaN payloads, -0.0 count); differences are itemised per field path (missing / phantom / value-changed / count-changed / unknown-changed) "
+                 "and each item is judged separately; non-trivial when >=1 field is populated; distinct by (package, message, field + boundary class | random field-number set)"),
+        "explanation": "same value space as C04",
+        "assumptions": TRUST_GEN,
+    },
+})
+
+SPECS.update({
+    "C06": {
+        "binary": "wl-gen", "flavor": "plain", "shards": 16, "run": gen_run,
+        "timeout_quick": 900, "timeout_thorough": 3400, "ulimit_kb": 8 << 20,
+        "floor": 1000,
+        "rule": ("one case = (message value, legal encoding variant) where the variant bytes are produced by the reference codec from the value tree: canonical, reversed and shuffled field order, "
+                 "opposite packing, packed runs split/mixed, duplicated singular scalars, split singular messages, several oneof members, map entries value-first / key omitted / value omitted / duplicate key, "
+                 "explicit zero values, interleaved unknown fields; the generated Unmarshal (into a destination pre-populated with unrelated content and unknown bytes) must succeed and equal the dynamicpb parse "
+                 "of the same bytes on known fields, and equal a decode into a zero destination; non-trivial when the variant differs from the canonical encoding; distinct by (package, message, variant family, field/case)"),
+        "explanation": "differences are itemised per field path and signed by (flavour, variant family - or canonical when the canonical encoding of the shrunk value shows the same item -, item kind@field shape)",
+        "assumptions": TRUST_GEN + ["variants not listed in the statement (over-long varints, zero-length packed runs, unknown fields inside map entries, groups) are not generated"],
+    },
+    "C07": {
+        "binary": "wl-gen", "flavor": "plain", "shards": 16, "run": gen_run,
+        "timeout_quick": 900, "timeout_thorough": 3400, "ulimit_kb": 8 << 20,
+        "floor": 300,
+        "rule": ("one case = a message encoding with 1-3 unknown fields per message level (all four wire types; numbers next to declared ones, >=2^26, near 2^29-1; payloads 0..70000 bytes; first/middle/last positions) "
+                 "fed to the generated Unmarshal then Marshal: the reference parse of the output must hold byte-identical unknown fields per message (top level and nested) and Size() must equal the output length; "
+                 "distinct by (package, message, variant family, field/case)"),
+        "explanation": "gv2 keeps unknown bytes in unknownFields, gogo/gv1 in XXX_unrecognized; both are compared through the reference parse, never through the struct",
+        "assumptions": TRUST_GEN,
+    },
+})
+
+SPECS.update({
+    "C17": {
+        "binary": "wl-gen", "flavor": "plain", "shards": 16, "run": gen_run,
+        "timeout_quick": 900, "timeout_thorough": 3400, "ulimit_kb": 8 << 20,
+        "floor": 40,
+        "rule": ("one case = (proto2 message value, subset of its reachable set required fields cleared): all 2^k subsets when k<=6 required slots are populated in the value tree (own fields, singular child, repeated element, map value, "
+                 "oneof member, extension value), each slot alone plus 64 seeded subsets beyond; generated Marshal / csproto.Marshal must fail iff the reference CheckInitialized fails, and generated Unmarshal of the reference's partial encoding "
+                 "must fail iff the reference's strict Unmarshal fails (empty message / empty input included); distinct by (package, message, nesting positions of the unset fields)"),
+        "explanation": "the oracle is google.golang.org/protobuf's proto.CheckInitialized and strict proto.Unmarshal on dynamic messages",
+        "assumptions": TRUST_GEN,
+    },
+})
+
 NOT_APPLICABLE = {}
 
 ENGINES = [
